@@ -160,6 +160,37 @@ def generated(count, seed):
     return out
 
 
+def macro_pairs():
+    """on-error with macros in between, decided metamorphically (template with METAL vs its inlined form, C09's
+    harness): the guarded element uses a macro whose body fails; a handler inside a macro around a slot whose
+    filler fails; handlers in caller and macro; a global defined by the macro before it fails"""
+    import copy
+    from checks.C09 import I, el, use
+    from vlib import metal_inline as mi
+    out = []
+
+    def add(label, tree, vars_):
+        macros = mi.collect_macros(tree, {})
+        inlined = mi.inline(copy.deepcopy(tree), macros)
+        assert len(inlined) == 1
+        out.append({'label': 'macro:' + label, 'lib': None, 'caller': tree, 'inlined': inlined[0], 'vars': vars_, 'allow_exc': True})
+    hide = lambda *m: el('hide', *m, condition=py('False'))     # noqa: E731
+    F = lambda *ks: [[k, 'fail', k] for k in ks]                 # noqa: E731
+    m = el('p', 'M ', I('L(0)'), ' tail', define_macro='m')
+    add('guard-around-use', el('div', hide(m), 'A', el('a', 'pre ', use('m'), ' post', onerror=['text', py("'E1'")],
+                                                       static=[['id', 'x']]), 'Z', I('L(1)')), F(0, 1))
+    ms = el('p', 'M[', el('g', el('b', 'dflt', define_slot='s'), I('L(1)'), onerror=['text', py("'EM'")]), ']', define_macro='ms')
+    add('handler-in-macro-filler-fails', el('div', hide(ms), use('ms', el('i', 'F ', I('L(0)'), fill_slot='s')), 'Z'), F(0, 1))
+    add('handlers-in-caller-and-macro', el('div', hide(ms), el('a', use('ms', el('i', 'F ', I('L(0)'), fill_slot='s')),
+                                                               I('L(2)'), onerror=['text', py("'EC'")]), 'Z'), F(0, 1, 2))
+    mg = el('p', el('k', define=[['global', 'g', py("'set'")]]), I('L(0)'), define_macro='mg')
+    add('global-before-failure', el('div', hide(mg), el('a', use('mg'), onerror=['text', py("'E'")]), '[', I("g | 'nog'"), ']'),
+        F(0))
+    add('failure-then-use-again', el('div', hide(m), el('a', use('m'), onerror=['text', py("error.type.__name__")]), '|',
+                                     el('b', use('m'), onerror=['structure', py("'<s>E</s>'")])), F(0))
+    return out
+
+
 def plan(tier, seed):
     quick = tier == 'quick'
     jobs = []
@@ -173,6 +204,9 @@ def plan(tier, seed):
                batch=2, vacuity=2, program_key='prog',
                mutants=[{'name': 'onerror_no_truncate', 'cfg': single},
                         {'name': 'onerror_catches_base', 'cfg': dict(single, vars=[[0, 'out', 0], [1, 'out3', 1]])}])
+    mj = macro_pairs()
+    famM = dict(name='on_error_with_macros', module='checks.hC09', fn='H', jobs=mj, timeout=300, vacuity=1,
+                program_key='label', mutants=[])
     return dict(
         level='translation_validation',
         functions=['chameleon.compiler:Compiler.visit_OnError', 'chameleon.zpt.program:MacroProgram.visit_element',
@@ -181,10 +215,10 @@ def plan(tier, seed):
         bounds=('%d templates (the hand-written ones plus trees generated from a grammar: elements nested to depth 3, any of them guarded, with define / condition / repeat / omit-tag / attributes / content and up to 3 evaluation points): on-error on single / nested (depth <= %d) / sibling elements, with omit-tag, repeat, '
                 'define+condition, tal:attributes, tal:content, text/structure fallback, error.type/value probes, '
                 'failing fallback; per evaluation point the solver ranges over {succeeds, raises ValueError, raises a '
-                'custom Exception}; repeat length 0..3/None; on_error_handler call sequence compared. Outside: macros '
-                'and translation blocks between handlers (see seeded C13-a), error.lineno/offset values (C12 covers '
+                'custom Exception}; repeat length 0..3/None; on_error_handler call sequence compared; 5 programs with macros between '
+                'handlers and failing points (guard around a use, handler inside a macro around a filled slot, both, a global set before the failure, repeated use) compared with their inlined form. Outside: error.lineno/offset values (C12 covers '
                 'positions), non-Exception BaseExceptions.' % (len(jobs), 2 if quick else 4)),
         assumptions=['reference: try/except Exception per guarded element, truncate to the element start, fallback = '
                      'start tag with static attributes + value + end tag (vlib/refsem.py from docs/reference.rst)'],
-        families=[fam],
+        families=[fam, famM],
     )
